@@ -84,7 +84,17 @@ func bucketID(s string) int {
 // keyBytes: the keys from 7 up (7 is the highest key of the random universe, higher numbers occur as scan bounds) start
 // with the byte 0xff - binary keys such as hashes do - so that open-ended scans have to reach past every printable key;
 // the order of the byte strings is still the numeric order.
+// nilEmptyKey: the case spells the empty key as a nil slice (reset kinds "M" / "X") - what a contract's empty key
+// becomes on its way through the protobuf-encoded syscall - instead of a zero-length non-nil one
+var nilEmptyKey bool
+
 func keyBytes(k int) []byte {
+	if k == 0 {
+		if nilEmptyKey {
+			return nil
+		}
+		return []byte{} // the empty key: the smallest key of every bucket
+	}
 	if k >= 7 {
 		return []byte("\xffk" + strconv.Itoa(k))
 	}
@@ -92,6 +102,9 @@ func keyBytes(k int) []byte {
 }
 
 func keyID(k []byte) int {
+	if len(k) == 0 {
+		return 0
+	}
 	if len(k) > 2 && k[0] == 0xff {
 		k = k[1:]
 	}
@@ -680,10 +693,14 @@ func chunkOwners(chunk []*protos.TxInput, from int) (int, bool) {
 func runCase(lines []string) (answers []string, viols []viol, info caseInfo) {
 	add := func(key, f string, a ...interface{}) { viols = append(viols, viol{key, fmt.Sprintf(f, a...)}) }
 	w0 := strings.Fields(lines[0])
-	if len(w0) < 2 || w0[0] != "reset" || (w0[1] != "m" && w0[1] != "x") {
+	if len(w0) < 2 || w0[0] != "reset" || (w0[1] != "m" && w0[1] != "x" && w0[1] != "M" && w0[1] != "X") {
 		return []string{"bad-op"}, nil, info
 	}
 	kind := w0[1][0]
+	nilEmptyKey = kind == 'M' || kind == 'X'
+	if nilEmptyKey {
+		kind += 'a' - 'A'
+	}
 	var es []entry
 	for _, t := range w0[2:] {
 		p := strings.Split(t, ":")
@@ -1313,6 +1330,9 @@ func randProgram(r *xvlib.Rng, nKeys, maxOps int) []string {
 			ops = append(ops, fmt.Sprintf("del %d %d", b, k))
 		default:
 			lo, hi := randBound(r, nKeys), randBound(r, nKeys)
+			if hi == "0" {
+				hi = "-" // key 0 is the empty key: as an upper bound the empty byte string means "no bound"
+			}
 			if lo != "-" && hi != "-" && r.Chance(4, 5) {
 				a, _ := strconv.Atoi(lo)
 				c, _ := strconv.Atoi(hi)
@@ -1335,6 +1355,8 @@ var exWorlds = []string{
 	"reset m 1:0:1:2 1:1:2:0 1:2:0:1",          // MemXModel: live, deleted, empty-version entry
 	"reset x 1:0:1:2 1:1:2:0",                  // XModel-like: live, deleted, never written
 	"reset x 1:1:1:3 1:2:2:4 2:0:3:5 2:1:4:0", // XModel-like: never written, live, live; other bucket populated
+	"reset X 1:0:1:2 1:2:2:4",                  // the empty key (key 0) spelled nil, live in the backing state
+	"reset M 1:1:1:3 1:2:0:1",                  // the empty key spelled nil, only written by the execution
 }
 
 func exAlphabet(small bool) []string {
@@ -1619,6 +1641,9 @@ func main() {
 		nKeys := 2 + rng.Intn(7)
 		kind, es := randWorld(rng, nKeys)
 		prog := randProgram(rng, nKeys, 15)
+		if rng.Chance(1, 4) {
+			kind -= 'a' - 'A' // the empty key spelled nil
+		}
 		lines := append([]string{strings.TrimSpace("reset " + string(kind) + " " + entriesString(es))}, prog...)
 		lines = append(lines, "rwset", "rerun")
 		runAndEmit(lines)
